@@ -124,10 +124,46 @@ func c08ExecCodec(c c08.Case, buf []byte) string {
 	}
 	m := cd.ProtocolMatch()(buf)
 	out += fmt.Sprintf(" match=%d", m)
+	if c.Class == "hdrgrid" {
+		// header pairs in the order the frame hands them out (compared with the reference parse by c08JudgeCodec)
+		var kvs []string
+		if xf, ok := frame.(api.XFrame); ok && xf.GetHeader() != nil {
+			xf.GetHeader().Range(func(k, v string) bool { kvs = append(kvs, fmt.Sprintf("%q=%q", k, v)); return true })
+		}
+		out += " ordered=[" + strings.Join(kvs, ",") + "]"
+	}
 	if bv := buffer.PoolContext(ctx); bv != nil {
 		bv.Give()
 	}
 	return out
+}
+
+// c08JudgeCodec: the differential of the header-block grid. A bolt/boltv2 frame that Decode ACCEPTS (a
+// frame and no error) must carry exactly the key/value pairs an independent reference parse of its header
+// block yields; a block the reference parse rejects must not be accepted. (Frames returned together with an
+// error, and "need more", are not compared.)
+func c08JudgeCodec(c c08.Case, out string) (string, string) {
+	if c.Class != "hdrgrid" || !strings.HasPrefix(out, "frame ") {
+		return "", ""
+	}
+	i := strings.LastIndex(out, " ordered=[")
+	if i < 0 {
+		return "", ""
+	}
+	got := out[i+len(" ordered=[") : len(out)-1]
+	ref, accept, ok := c08.BoltHeaderRef(c.Input())
+	if !ok {
+		return "", ""
+	}
+	if !accept {
+		return fmt.Sprintf("%s class=%s header block accepted although an independent reference parse rejects it", c.Target, c.Class),
+			fmt.Sprintf("Decode returned a frame without error, headers [%s]; the header block is malformed (length that does not fit / key without value / dangling bytes); %s; input=%s", got, c.Desc, c.Hex)
+	}
+	if want := strings.Join(ref, ","); got != want {
+		return fmt.Sprintf("%s class=%s accepted header block yields other key/value pairs than an independent reference parse", c.Target, c.Class),
+			fmt.Sprintf("Decode returned a frame without error with headers [%s]; the reference parse of the same block yields [%s] (validator and parser do not walk the block alike); %s; input=%s", got, want, c.Desc, c.Hex)
+	}
+	return "", ""
 }
 
 // ---------------------------------------------------------------- parts
@@ -171,8 +207,8 @@ func c08Gen(ts []c08Target) func(yield func(c08.Case) bool) {
 	}
 }
 
-const c08Bound = "per codec: every frame of the alphabet x {every truncation; every length field x {0,1,2,3,true-1,true+1,2^16-1,2^31-1,2^31,2^32-1} (clamped to the field width); every byte x {0x00,0xFF,^b} (thorough: x all 256 values); every block +1..3 bytes of {00,01,FF} and -1..3 bytes with lengths adjusted; 1..3 trailing bytes}; all byte strings of length <=2; all 3-byte strings starting with the protocol magic; every path-selecting byte (bolt: protocol code, command type, command code, codec, v2 switch; dubbo: flag, status; dubbo-thrift: version, strict-version bytes, message type; tars: the head byte of every length-carrying TLV, SIMPLE_LIST element type, head of every size INT) x all 256 values, and x {0..7, single bits, single cleared bits, 0xFF, single-bit flips of the true value, true+-1} x every length field (tars: the TLV's own length and the packet length) x the length boundary set; constructed grids: bolt/boltv2 {cmdType 0..3} x {cmdCode 0..2} x classLen {0,1,2} x headerLen {0,1,3,4,5,8,9,10} x contentLen {0,1,2} x 2 header fills x {complete, -1 byte, +1 byte}; dubbo {all 256 flag bytes} x status {0,20,255} x 7 payloads (request payload cut to 0,1,2,3,len-1,len bytes; null), each for the 3 listener configurations; every 4-byte element count of the tars frames (map sizes, vector lengths) x {2^24, 2^22, 2^20, 2^16}"
-const c08Rule = "each input is decoded three times through XProtocol.Decode + ProtocolMatch (exact-capacity buffer, 4096 spare bytes of 0xA5, of 0x3C); distinct = distinct input bytes per target; outcome = (target, class, frame|more|error|panic). Oracle: no panic escapes (a panic the codec recovers and returns as an error is allowed); outcomes with different poison identical; TotalAlloc delta of a call <= 1MiB+32*len(input) (confirmed by the minimum of 3 re-measurements); the call returns (60s; or >300ms with >128MiB in use and growing). What a decoder returns for a corrupted frame (frame vs error vs more) is NOT compared. Cost: the minimum thread CPU time (CLOCK_THREAD_CPUTIME_ID of the locked OS thread) over the three executions of an input <= 1 KiB must not exceed 100 ms (replay: 50 ms). tars inputs announcing a map size > 2^24 in a 4-byte INT are not executed (kind not-run; findings/C08.md F5); sizes up to 2^24 are."
+const c08Bound = "per codec: every frame of the alphabet x {every truncation; every length field x {0,1,2,3,true-1,true+1,2^16-1,2^31-1,2^31,2^32-1} (clamped to the field width); every byte x {0x00,0xFF,^b} (thorough: x all 256 values); every block +1..3 bytes of {00,01,FF} and -1..3 bytes with lengths adjusted; 1..3 trailing bytes}; all byte strings of length <=2; all 3-byte strings starting with the protocol magic; every path-selecting byte (bolt: protocol code, command type, command code, codec, v2 switch; dubbo: flag, status; dubbo-thrift: version, strict-version bytes, message type; tars: the head byte of every length-carrying TLV, SIMPLE_LIST element type, head of every size INT) x all 256 values, and x {0..7, single bits, single cleared bits, 0xFF, single-bit flips of the true value, true+-1} x every length field (tars: the TLV's own length and the packet length) x the length boundary set; constructed grids: bolt/boltv2 {cmdType 0..3} x {cmdCode 0..2} x classLen {0,1,2} x headerLen {0,1,3,4,5,8,9,10} x contentLen {0,1,2} x 2 header fills x {complete, -1 byte, +1 byte}; dubbo {all 256 flag bytes} x status {0,20,255} x 7 payloads (request payload cut to 0,1,2,3,len-1,len bytes; null), each for the 3 listener configurations; every 4-byte element count (tars map sizes and vector lengths, the hessian list length) x {2^24, 2^22, 2^20}; bolt/boltv2 header-block grid: every sequence of <= 4 length-prefixed strings whose announced length is one of {0xFFFFFFFF, 0, 1, 2, exactly the remaining bytes, remaining+1, 0x7FFFFFFF, 0x80000000} (the relative and absurd ones with 0 or 1 own bytes) x {no, one} dangling byte x {request, one-way, response} x header length field {right, -1, +1}"
+const c08Rule = "each input is decoded three times through XProtocol.Decode + ProtocolMatch (exact-capacity buffer, 4096 spare bytes of 0xA5, of 0x3C); distinct = distinct input bytes per target; outcome = (target, class, frame|more|error|panic). Oracle: no panic escapes (a panic the codec recovers and returns as an error is allowed); outcomes with different poison identical; TotalAlloc delta of a call <= 1MiB+32*len(input) (confirmed by the minimum of 3 re-measurements); the call returns (60s; or >300ms with >128MiB in use and growing). What a decoder returns for a corrupted frame (frame vs error vs more) is NOT compared. Cost: the minimum thread CPU time (CLOCK_THREAD_CPUTIME_ID of the locked OS thread) over the three executions of an input <= 1 KiB must not exceed 100 ms (replay: 50 ms). tars inputs announcing a map size > 2^24 in a 4-byte INT are not executed (kind not-run; findings/C08.md F5); sizes up to 2^24 are. Header-block grid only: a bolt/boltv2 frame accepted without error must carry exactly the key/value pairs (in order) an independent reference parse of its header block yields, and a block that parse rejects must not be accepted."
 
 func c08Run(t *testing.T, part string, ts []c08Target) {
 	budget := time.Duration(vreport.Pick(4, 20)) * time.Minute
@@ -182,7 +218,7 @@ func c08Run(t *testing.T, part string, ts []c08Target) {
 		budget = time.Duration(vreport.Pick(4, 8)) * time.Minute
 	}
 	c08.Main(t, c08.Spec{Prop: "C08", Part: part, Budget: budget,
-		Gen: c08Gen(ts), Exec: c08ExecCodec,
+		Gen: c08Gen(ts), Exec: c08ExecCodec, Judge: c08JudgeCodec,
 		NoAlloc: func(c c08.Case) bool { return c.Class == "short" && !vreport.Thorough() },
 		Bound:   c08Bound, Rule: c08Rule})
 }
@@ -190,13 +226,17 @@ func c08Run(t *testing.T, part string, ts []c08Target) {
 func TestVerifC08Bolt(t *testing.T) {
 	t.Parallel()
 	c08Run(t, "bolt", []c08Target{{"bolt", c08.BoltFrames(false), [][]byte{{0x01}},
-		func(tg string, y func(c08.Case) bool) bool { return c08.BoltGrid(tg, false, y) }}})
+		func(tg string, y func(c08.Case) bool) bool {
+			return c08.BoltGrid(tg, false, y) && c08.BoltHeaderGrid(tg, false, 4, true, y)
+		}}})
 }
 
 func TestVerifC08BoltV2(t *testing.T) {
 	t.Parallel()
 	c08Run(t, "boltv2", []c08Target{{"boltv2", c08.BoltFrames(true), [][]byte{{0x02}},
-		func(tg string, y func(c08.Case) bool) bool { return c08.BoltGrid(tg, true, y) }}})
+		func(tg string, y func(c08.Case) bool) bool {
+			return c08.BoltGrid(tg, true, y) && c08.BoltHeaderGrid(tg, true, 4, true, y)
+		}}})
 }
 
 func TestVerifC08Dubbo(t *testing.T) {
